@@ -12,7 +12,7 @@ from .c10_meta import TOL
 ID = "C10"
 SHRINK_LISTS = ("chunks", "chunks_a", "chunks_b")
 SHRINK_MIN = {"n": 1, "nchans": 1, "k": 1}
-FAMILIES = ["constant", "onebit", "smallint", "gauss", "gauss-bigmean", "heavy", "one-constant"]
+FAMILIES = ["constant", "onebit", "smallint", "gauss", "gauss-bigmean", "heavy", "one-constant", "step", "step"]
 CAL = bool(os.environ.get("VERIF_C10_CALIBRATE"))
 
 
@@ -106,6 +106,12 @@ def make_data(sc) -> np.ndarray:
         x = r.normal((sig * r.choice([10, 100, 1000], size=nch))[None, :], sig[None, :], size=(n, nch))
     elif fam == "heavy":
         x = r.standard_t(3, size=(n, nch)) * 4
+    elif fam == "step":
+        # non-stationary: the level jumps by several sigma at a random sample (two parts of a merge
+        # then have very different means, which is where the pairwise-merge cross terms matter)
+        x = r.normal(5, 2, size=(n, nch))
+        at = int(r.integers(0, n + 1))
+        x[at:] += r.choice([6.0, 12.0, -9.0], size=nch)[None, :]
     else:  # one-constant
         x = r.normal(10, 2, size=(n, nch))
         x[:, int(r.integers(0, nch))] = 7.0
